@@ -16,6 +16,11 @@ from lib.core import Ctx
 from lib import repo  # noqa: F401
 
 
+_GENERATORS = {}
+_BUF = []
+_CASE = [0]
+
+
 def run_real(case):
     import numpy as np
     from src.correlation.vectorise import vectorisePositions, blur
@@ -30,8 +35,14 @@ def run_real(case):
         from src.correlation.optical_map import OpticalMap
         from src.correlation.sequence_generator import SequenceGenerator
         end = v["end"] if v["end"] != 0 else None
-        om = OpticalMap(1, max(v["pos"]) + 1, list(v["pos"]))
-        return [int(x) for x in om.getSequence(SequenceGenerator(v["res"], v["r"]), v["rev"], v["start"], end)]
+        # one generator per (resolution, blur) for all cases, as the coordinator keeps its two generators for a run.
+        # Every case is its own map (own id), but the label LIST object is one buffer refilled in place: a list's
+        # identity says nothing about its content (a generator must not remember label lists by identity)
+        _CASE[0] += 1
+        _BUF[:] = v["pos"]
+        om = OpticalMap(10 + _CASE[0], max(v["pos"]) + 1, _BUF)
+        sg = _GENERATORS.setdefault((v["res"], v["r"]), SequenceGenerator(v["res"], v["r"]))
+        return [int(x) for x in om.getSequence(sg, v["rev"], v["start"], end)]
     if kind == "blur":
         return [int(x) for x in blur(list(v["v"]), v["r"])]
     if kind == "bin":
